@@ -197,7 +197,7 @@ Section WithDescs.
     induction ms as [|m ms IH]; intros rs acc Hin H; cbn [group_loop]; [exact H|].
     pose proof (recd_Q rs m (Hin m (or_introl eq_refl)) H) as H1.
     destruct (recd rs h m) as [rs1 [a|e|]]; cbn [fst] in *; try exact H1.
-    destruct a; try exact H1. apply IH; [intros x Hx; apply Hin; right; exact Hx|exact H1].
+    destruct a; try exact H1; (apply IH; [intros x Hx; apply Hin; right; exact Hx|exact H1]).
   Qed.
   Lemma q_dep_value rs d : Q rs -> Q (fst (dep_value recd rs h d)).
   Proof.
